@@ -116,35 +116,51 @@ def run_call(ct, call):
         return canon_tree(path_kahypar.kahypar_to_tree.build_agglom(inputs, output, size, seed=seed, groupsize=3))
     tree = start_tree(ct, net)
     kw = dict(kw)
+    if kw.pop("warm", False):
+        # the tree object has a past: it was reconfigured before (its cache of optimized subtrees is not empty), queried
+        # and copied; the seeded call below is then made TWICE on this same object (see main)
+        tree.subtree_reconfigure_(subtree_size=3, maxiter=4, seed=11)
+        tree.contract_stats()
+        tree.copy().subtree_reconfigure_(subtree_size=4, maxiter=2, seed=5)
     if kw.pop("presliced", False):
         # start from an already sliced tree so that un-slicing branches of the annealers run
         for ix in sorted(size)[:3]:
             tree.remove_ind_(ix)
-    if kw.get("target_size") == "current":
-        kw["target_size"] = tree.max_size()
-    if api == "tree.slice":
-        return canon_tree(tree.slice(target_size=max(1, tree.max_size() // 4), seed=seed, temperature=0.5, **kw))
-    if api == "SliceFinder":
-        from cotengra.slicer import SliceFinder
-        ix, cost = SliceFinder(tree, target_slices=4, temperature=0.5, seed=seed).search(4)
-        return (tuple(sorted(ix)), cost.size, cost.flops)
-    if api == "unslice_rand":
-        for ix in sorted(size)[:3]:
-            tree.remove_ind_(ix)
-        return canon_tree(tree.unslice_rand(seed=seed))
-    if api == "subtree_reconfigure":
-        return canon_tree(tree.subtree_reconfigure(subtree_size=4, maxiter=6, seed=seed, **kw))
-    if api == "subtree_reconfigure_forest":
-        return canon_tree(tree.subtree_reconfigure_forest(num_trees=2, num_restarts=2, subtree_maxiter=4, subtree_size=4,
-                                                          parallel=False, seed=seed))
-    if api == "simulated_anneal":
-        return canon_tree(tree.simulated_anneal(tsteps=3, numiter=6, tstart=5, seed=seed, **kw))
-    if api == "parallel_temper":
-        return canon_tree(tree.parallel_temper(tsteps=2, numiter=4, num_trees=2, parallel=False, seed=seed, **kw))
-    if api == "get_subtree":
-        sub = tree.get_subtree(tree.root, 4, search="random", seed=seed)
-        return tuple(tuple(sorted(map(tuple, map(sorted, part)))) for part in sub)
-    raise ValueError(api)
+    repeat = kw.pop("repeat", False)
+
+    def do():
+        kw_ = dict(kw)
+        if kw_.get("target_size") == "current":
+            kw_["target_size"] = tree.max_size()
+        if api == "tree.slice":
+            return canon_tree(tree.slice(target_size=max(1, tree.max_size() // 4), seed=seed, temperature=0.5, **kw_))
+        if api == "SliceFinder":
+            from cotengra.slicer import SliceFinder
+            ix, cost = SliceFinder(tree, target_slices=4, temperature=0.5, seed=seed).search(4)
+            return (tuple(sorted(ix)), cost.size, cost.flops)
+        if api == "unslice_rand":
+            for ix in sorted(size)[:3]:
+                tree.remove_ind_(ix)
+            return canon_tree(tree.unslice_rand(seed=seed))
+        if api == "subtree_reconfigure":
+            return canon_tree(tree.subtree_reconfigure(subtree_size=4, maxiter=6, seed=seed, **kw_))
+        if api == "subtree_reconfigure_forest":
+            return canon_tree(tree.subtree_reconfigure_forest(num_trees=2, num_restarts=2, subtree_maxiter=4, subtree_size=4,
+                                                              parallel=False, seed=seed))
+        if api == "simulated_anneal":
+            return canon_tree(tree.simulated_anneal(tsteps=3, numiter=6, tstart=5, seed=seed, **kw_))
+        if api == "parallel_temper":
+            return canon_tree(tree.parallel_temper(tsteps=2, numiter=4, num_trees=2, parallel=False, seed=seed, **kw_))
+        if api == "get_subtree":
+            sub = tree.get_subtree(tree.root, 4, search="random", seed=seed)
+            return tuple(tuple(sorted(map(tuple, map(sorted, part)))) for part in sub)
+        raise ValueError(api)
+
+    if repeat:
+        # the same seeded call, twice, on the same object: both results are observations of the same call key
+        return ("REPEAT", do(), do())
+    return do()
+
 
 
 def main():
@@ -163,7 +179,11 @@ def main():
             random.random()
         np.random.seed(pr.randrange(2**31))
         try:
-            r = digest(run_call(ct, calls[i]))
+            res = run_call(ct, calls[i])
+            if isinstance(res, tuple) and len(res) == 3 and res[0] == "REPEAT":
+                r = digest(res[1]) + "|" + digest(res[2])
+            else:
+                r = digest(res)
         except Exception as e:
             r = "raised:" + type(e).__name__ + ":" + str(e)[:80]
         out.append((i, r))
